@@ -34,6 +34,7 @@ type Engine struct {
 	SolverArgv       []string
 	SolverName       string
 	SolverTimeoutMs  int
+	BranchTimeoutMs  int
 	SecondSolverArgv []string
 	InitPkgs         map[string]bool // packages whose init runs normally
 	LenientPkgs      map[string]bool // packages whose var initialisers run leniently
@@ -41,12 +42,25 @@ type Engine struct {
 	LogDir           string
 	Trace            bool
 	Thorough         bool
+	deadline         time.Time
+	knownSeen        map[string]int
 	SessionPaths     int               // recycle solver/context after this many paths
 	Substitute       map[string]string // fn name -> replacement fn name (spec substitution, layering)
 	NativeImport     func(i *NativeCtx, name string, args []interface{}) (interface{}, bool)
 	substFns         map[*ssa.Function]*ssa.Function
 	modelFns         map[string]*ssa.Function
 	mu               sync.Mutex
+}
+
+// knownWitnessed adds n to, and returns, the number of counterexamples recorded for a known-finding class.
+func (e *Engine) knownWitnessed(id string, n int) int {
+	e.mu.Lock()
+	defer e.mu.Unlock()
+	if e.knownSeen == nil {
+		e.knownSeen = map[string]int{}
+	}
+	e.knownSeen[id] += n
+	return e.knownSeen[id]
 }
 
 func isEngineAbort(p interface{}) bool {
@@ -172,6 +186,12 @@ func (w *Worker) SolverErrors() []string {
 
 // RunPath executes the harness once under the decision vector.
 func (w *Worker) RunPath(fn *ssa.Function, decisions []Decision) (res *PathResult) {
+	tPath := time.Now()
+	defer func() {
+		if res != nil {
+			res.WallS = time.Since(tPath).Seconds()
+		}
+	}()
 	if w.sess == nil || w.sess.paths >= w.eng.SessionPaths || w.sess.solver.Dead() {
 		if err := w.newSession(); err != nil {
 			return &PathResult{Outcome: "unsupported", Detail: "solver start: " + err.Error()}
@@ -192,6 +212,13 @@ func (w *Worker) RunPath(fn *ssa.Function, decisions []Decision) (res *PathResul
 		switch p := p.(type) {
 		case nil:
 			res.Outcome = "ok"
+			if r.lazyAssumes > 0 && !w.sess.solver.Dead() {
+				if r.check() == smt.Unsat {
+					res.Outcome, res.Detail = "infeasible", "path condition infeasible (assumption)"
+					res.AssertsOK, res.AssertsSeen = map[string]int{}, map[string]int{}
+					res.Trivial, res.Findings = 0, nil
+				}
+			}
 		case pathAbort:
 			res.Outcome, res.Detail = p.outcome, p.detail
 		case unsupported:
@@ -240,7 +267,7 @@ func (w *Worker) RunPath(fn *ssa.Function, decisions []Decision) (res *PathResul
 		res.NewWork = r.newWork
 		res.Instrs = r.stats.instrs
 		res.Queries = w.sess.solver.Queries - q0
-		_ = t0
+		res.SolverS = (w.sess.solver.Time - t0).Seconds()
 		w.i.run = nil
 	}()
 	call(w.i, nil, token.NoPos, fn, nil)
@@ -505,12 +532,17 @@ type Summary struct {
 	WallS         float64
 	PanicMsgs     map[string]int
 	LastObserves  map[string]string
+	SolverS       float64
+	LabelTime     map[string]float64
+	SlowestS      float64
+	Slowest       string
 	Trivial       int
 	SecondOpinion int
 }
 
 // Explore runs all paths of a harness.
 func (e *Engine) Explore(fn *ssa.Function, workers []*Worker, opts ExploreOpts) *Summary {
+	e.deadline = opts.Deadline
 	sum := &Summary{Harness: fn.Name(), Outcomes: map[string]int{}, AssertsOK: map[string]int{}, AssertsSeen: map[string]int{},
 		Unsupported: map[string]int{}, InternalAsm: map[string]int{}, PanicMsgs: map[string]int{}}
 	t0 := time.Now()
@@ -559,6 +591,13 @@ func (e *Engine) Explore(fn *ssa.Function, workers []*Worker, opts ExploreOpts) 
 					sum.InternalAsm[a]++
 				}
 				sum.Instrs += res.Instrs
+				sum.SolverS += res.SolverS
+				for k, v := range res.LabelTime {
+					if sum.LabelTime == nil {
+						sum.LabelTime = map[string]float64{}
+					}
+					sum.LabelTime[k] += v
+				}
 				if len(res.Observes) > 0 {
 					sum.LastObserves = res.Observes
 				}
@@ -573,12 +612,26 @@ func (e *Engine) Explore(fn *ssa.Function, workers []*Worker, opts ExploreOpts) 
 				case "panic":
 					sum.PanicMsgs[res.Detail]++
 				}
+				if res.WallS > sum.SlowestS {
+					sum.SlowestS = res.WallS
+					sum.Slowest = fmt.Sprintf("%.1fs %s", res.WallS, DecisionsString(res.Decisions))
+				}
 				if len(sum.Samples) < 5 {
 					sum.Samples = append(sum.Samples, fmt.Sprintf("%s decisions=%s instrs=%d asserts=%v", res.Outcome, DecisionsString(res.Decisions), res.Instrs, res.AssertsSeen))
 				}
 				work = append(work, res.NewWork...)
 				if opts.OnPath != nil {
 					opts.OnPath(res)
+				}
+				unknownFindings := 0
+				for _, f := range sum.Findings {
+					if f.Kind != "known" {
+						unknownFindings++
+					}
+				}
+				if unknownFindings >= 24 && (len(work) > 0 || active > 0) && !stopped {
+					sum.Incomplete = append(sum.Incomplete, fmt.Sprintf("exploration stopped after %d counterexample candidates (%d work items left)", len(sum.Findings), len(work)))
+					stopped = true
 				}
 				if (opts.MaxPaths > 0 && sum.Paths >= opts.MaxPaths) || (!opts.Deadline.IsZero() && time.Now().After(opts.Deadline)) {
 					if len(work) > 0 || active > 0 {
